@@ -129,6 +129,7 @@ type c16Obs struct {
 	LockData  string  `json:"lock_data,omitempty"`
 	Skip      bool    `json:"skip,omitempty"` // observation outside the model's scope (left the sandbox)
 	SBParent  string  `json:"sb_parent,omitempty"` // the directory the sandbox was created in
+	NewLinks  []c16NewLink `json:"new_links,omitempty"` // links below the destination that the call created or changed
 }
 
 func (*c16) ID() string { return "C16" }
@@ -808,6 +809,15 @@ func (p *c16) Corpus() []any {
 	for _, t := range []byte{'1', '2', '3', '4', '5', '6', '7', 'x', 'g', 0, 'Z'} {
 		out = append(out, c16Case{Kind: "arch", MaxTotal: 10000, MaxFile: 1000, Ents: []c16Ent{c16Chart("c"), {Name: "c/l", Type: t, Mode: 0o777, Size: 0, Link: "/etc/passwd"}, reg("c/z", "z")}})
 		out = append(out, c16Case{Kind: "arch", MaxTotal: 10000, MaxFile: 1000, Ents: []c16Ent{c16Chart("c"), {Name: "c/l", Type: t, Mode: 0o777, Size: 7, Link: "/etc/passwd"}, reg("c/z", "z")}})
+	}
+	// symlink / hard-link entries: single, chained pairs and triples, regular entries "through" them
+	for _, sc := range c16LinkScenarios {
+		ents := []c16Ent{c16Chart("c")}
+		for _, e := range sc {
+			e.Name = "c/" + e.Name
+			ents = append(ents, e)
+		}
+		out = append(out, c16Case{Kind: "arch", MaxTotal: 10000, MaxFile: 1000, Ents: ents})
 	}
 	// BOM, empty archive, only directories, duplicates
 	out = append(out, c16Case{Kind: "arch", MaxTotal: 10000, MaxFile: 1000, Ents: []c16Ent{c16Chart("c"), reg("c/b", "\xef\xbb\xbfabc"), reg("c/b", "second")}})
